@@ -101,19 +101,53 @@ PROP = dict(
     prop_targets=["Properties/C10.vo"],
     cases=dict(quick=1800, thorough=14400),
     level="proof",
-    rule="inputs drawn from 2-D and 3-D grids (sides 1..12, incl. 1 x n and n x 1 x 1), 8 weight families (uniform, sparse, "
-         "skewed, all-zero, one dominant, random, gradient, two clusters), i64 and integer-valued f64 weights, iter_count 0..6; "
-         "every input is run under the six rayon pools 1,2,3,4,8,16 (six consecutive cases share the input), the model is run "
-         "with the same T; distinct = distinct (dims, weights, weight type, iter_count, T); non-trivial = at least 4 cells, "
-         "iter_count >= 1 and a non-zero total weight",
+    harness_timeout=2400,
+    rule="inputs drawn from 2-D and 3-D grids (sides 1..12, incl. 1 x n, n x 1, 1 x 1 x n, cubes; at most 600 cells in the quick "
+         "tier, 1728 in the thorough tier), 11 weight families (uniform, sparse, skewed, all-zero, one dominant, random, "
+         "gradient, two clusters, large values < 2^46, huge values up to 2^52, giant i64 values up to 2^61), i64 and "
+         "integer-valued f64 weights, iter_count 0..6; every input is run under the rayon pools 1,2,3,4,8,16 (quick) / 1..16 "
+         "(thorough) in consecutive cases, the model is run with the same T and the ids are compared exactly; the certified "
+         "checker judges the implementation's ids whenever the total is below 2^46; distinct = distinct (dims, weights, "
+         "weight type, iter_count, T); non-trivial = at least 4 cells, iter_count >= 1 and a non-zero total weight",
     class_names={0: "Ok", 3: "panic", 4: "hang"},
-    trusted_base=[],
-    assumptions=[],
+    trusted_base=[
+        "axioms: C10_thresholds and C10_gridrcb_boxes_all use the axioms of Coq's classical real numbers through Flocq "
+        "(ClassicalDedekindReals.sig_forall_dec, sig_not_dec, FunctionalExtensionality.functional_extensionality_dep, "
+        "Classical_Prop.classic); every other theorem of Properties/C10.v is closed under the global context",
+        "Flocq 4.1 (BinarySingleNaN correctness theorems, PrimFloat.binary_round_aux_equiv linking Coq's SpecFloat to Flocq)",
+        "modelled, not verified: i64 overflow of the weight sums (contract: total < 2^46 for the balance theorem, < 2^63 for "
+        "the run), f64 weights only when integer-valued with total < 2^53 (then f64 +,- are exact and the Z model applies); "
+        "rayon: fold_chunks(n) = sums of consecutive chunks of n elements, par_iter/collect preserve order, "
+        "current_num_threads() = size of the installed pool",
+    ],
+    assumptions=[
+        "sides >= 1 (NonZeroUsize), weights.len() = partition.len() = number of cells",
+        "weights are non-negative integers (i64, or f64 holding integers) whose total is below 2^46 (balance clause; "
+        "termination, boxes and ids hold for any non-negative weights given the threshold facts)",
+        "Rust `f64 as i64` = truncation toward zero, saturating; `i64 as f64` = round to nearest even",
+        "fuel: every median search is given more than log2(axis length) iterations (the model takes the fuel explicitly; "
+        "C10_median_terminates shows log2(len)+1 suffice for every pool size)",
+    ],
 )
 
 MANIFEST = dict(
-    text="(under construction)",
+    text="Theorems about a line-by-line Gallina model of Grid::rcb (index_of/position_of, slab sums, the chunked weighted-median "
+         "search with the pool size T as a parameter, f64 thresholds via SpecFloat, recurse_2d/3d, part_of), proved for ALL 2-D/3-D "
+         "grids with sides >= 1, all non-negative integer weights with total < 2^46 (i64 or integer-valued f64), all iter_count and "
+         "ALL pool sizes T: the median search returns within log2(len)+1 iterations (C10_median_terminates; needs the generated "
+         "minimum chunk count >= 2, and C10_median_T1_refuted / C10_gridrcb_T1_refuted show the old chunk count = T loops for ever at "
+         "T = 1); Grid::rcb never panics or hangs, every cell gets an id < 2^iter_count, the ids are the path codes of a recursive "
+         "axis-aligned bisection of depth <= iter_count whose non-empty leaves are at depth iter_count, and at every cut the low side "
+         "is within 1% of half the box weight (+1 unit) or the slab just above the cut contains the half-weight mark "
+         "(C10_gridrcb_boxes_all; the f64 facts about trunc(ideal*0.99), trunc(ideal*1.01) are proved with Flocq, C10_thresholds). "
+         "TOLERANCE, the minimum chunk count / chunk size and the starting axes are re-read from rcb.rs / mod.rs on every run; the "
+         "model is compared with the implementation under rayon pools 1..16 (exact ids), and a checker proved sound for the "
+         "property statement (C10_checker_sound) judges every implementation output.",
     design_ref="DESIGN.md §7 C10",
-    note="",
-    technique="Coq proof + translator + model/implementation correspondence + certified checker",
+    note="Trusted: Coq kernel; classical-reals axioms (two theorems, via Flocq); the model<->code tie is the translator (TOLERANCE, "
+         "min chunk count, min chunk size, start axes, threshold expressions) plus differential runs (1.8k/14.4k cases x pool sizes, "
+         "watchdog for hangs); SpecFloat = hardware f64; weight totals < 2^46 for the balance clause. The checker is proved sound "
+         "(accept => property), not complete.",
+    technique="Coq proof (loop invariant + interval-halving measure, induction on iter_count, Flocq for the thresholds) + translator "
+              "+ model/implementation correspondence under pools 1..16 + certified checker",
 )
